@@ -145,8 +145,9 @@ def make_just(framing, d, fc, L):
         elif framing == "binary":
             assume(B[0] == 0x7B)
             assume(B[FCPOS[framing]] == fc)
-        else:
+        elif L > FCPOS[framing]:
             assume(B[FCPOS[framing]] == fc)
+        # (a buffer too short to hold a function-code byte is wholly symbolic)
         spy = _dec(d)
         rx = adu.framer_class(framing)(spy)
         got = []
